@@ -33,7 +33,7 @@ CmpD(x, y) ==                                                   \* -1, 0, 1
 LeqD(x, y) == CmpD(x, y) <= 0
 LtD(x, y) == CmpD(x, y) < 0
 Small(x) == x[2] < 16384 /\ \A i \in 3..ND : x[i] = 0           \* below 2^30: fits a TLC integer
-Int(x) == x[1] + B * x[2]
+IntOf(x) == x[1] + B * x[2]
 Low(x, k) == [i \in 1..ND |-> IF i <= k THEN x[i] ELSE 0]       \* x modulo 2^(16k)
 Fits(x, k) == \A i \in (k + 1)..ND : x[i] = 0                   \* x < 2^(16k)
 
@@ -126,14 +126,14 @@ End(r) == IF r[2] = Zero THEN Zero ELSE AddD(r[1], r[2])
 \* memory costs 3 gas per word plus words^2/512: 4 KiB are paid for with 400 gas, 2^32 bytes cost 2^45 - no gas limit
 \* of a block buys them.  No tuple lies in between (design invariant RangesDecided).
 MemCap == 4096
-Affordable(e) == Small(e) /\ Int(e) <= MemCap
+Affordable(e) == Small(e) /\ IntOf(e) <= MemCap
 Unaffordable(e) == LeqD(Ones(2), e)
 MemFail(op, v) == \E r \in Ranges(op, v) : Unaffordable(End(r))
 MemFine(op, v) == \A r \in Ranges(op, v) : Affordable(End(r))
 Ceil32(n) == ((n + 31) \div 32) * 32
 Max(S) == CHOOSE x \in S : \A y \in S : y <= x
 \* memory size after the opcode (defined when MemFine)
-ExpMs(op, v, env) == Max({env.ms} \cup {Ceil32(Int(End(r))) : r \in Ranges(op, v)})
+ExpMs(op, v, env) == Max({env.ms} \cup {Ceil32(IntOf(End(r))) : r \in Ranges(op, v)})
 
 \* state-changing instructions: refused inside a read-only frame
 Writes(op, v) == op \in LogOps \cup {"SSTORE", "CREATE", "SELFDESTRUCT"} \/ (op = "CALL" /\ v[3] # Zero)
@@ -157,18 +157,21 @@ Outcome(op, cls, static, gas, env) ==
 \* ------------------------------------------------------------------ contents (demanded whenever the frame succeeded)
 Pat(salt, i) == ((i * 7 + salt) % 250) + 1                     \* byte i (from 0) of the call data (salt 3), the return data (101), D's code (57)
 PreMem(env, i) == IF i < env.ms /\ i < env.nc THEN Pat(3, i) ELSE 0        \* memory before the opcode: the first ms call data bytes
-\* byte j of the data a copy reads; beyond the end (or from an offset no data can have) it reads zeros
-SrcKnown(op, cls) == op \in {"CALLDATACOPY", "RETURNDATACOPY"} \/ (op = "EXTCODECOPY" /\ cls[1] \notin {"self", "R", "dirtyR"})
-SrcByte(op, cls, env, j) ==
+\* byte j of the data a copy reads; beyond the end (or from an offset no data can have) it reads zeros.  data = the
+\* code the harness deployed, for the copies that read code (<<>> otherwise: call data, return data and D are patterns)
+SrcByte(op, cls, env, data, j) ==
   IF j >= SrcLen(op, env) THEN 0
-  ELSE CASE op = "CALLDATACOPY" -> Pat(3, j) [] op = "RETURNDATACOPY" -> Pat(101, j) [] OTHER -> Pat(57, j)
+  ELSE CASE op = "CALLDATACOPY" -> Pat(3, j) [] op = "RETURNDATACOPY" -> Pat(101, j)
+         [] op = "EXTCODECOPY" /\ cls[1] \in {"D", "dirtyD"} -> Pat(57, j)
+         [] OTHER -> data[j + 1]
+NeedsData(op, cls) == op = "CODECOPY" \/ (op = "EXTCODECOPY" /\ cls[1] \in {"self", "R", "dirtyR"})
 \* operands of a copy: memory offset, data offset, length
 CopyArgs(op, v) == IF op = "EXTCODECOPY" THEN <<v[2], v[3], v[4]>> ELSE <<v[1], v[2], v[3]>>
 \* the memory after a successful copy, byte i (from 0)
-CopyMem(op, cls, v, env, i) ==
-  LET a == CopyArgs(op, v)  len == Int(a[3])  m == Int(a[1]) IN
+CopyMem(op, cls, v, env, data, i) ==
+  LET a == CopyArgs(op, v)  len == IntOf(a[3])  m == IntOf(a[1]) IN
   IF len > 0 /\ i >= m /\ i < m + len
-  THEN (IF Small(a[2]) THEN SrcByte(op, cls, env, Int(a[2]) + (i - m)) ELSE 0)
+  THEN (IF Small(a[2]) THEN SrcByte(op, cls, env, data, IntOf(a[2]) + (i - m)) ELSE 0)
   ELSE PreMem(env, i)
 \* result words the property fixes: where a jump lands, division by zero, an unaffordable value transfer
 Res11 == FromInt(17)                                            \* the program fell through the jump
